@@ -39,6 +39,17 @@ def subRow (m : Mat) (v : List Rat) : Option Mat :=
   else if m.ncols = 1 then some { ncols := v.length, rows := m.rows.map fun r => v.map fun b => r.headD 0 - b }
   else none
 
+/-- `np.kron(v, np.array([1, 1]))` for an integer vector: every entry twice -/
+def kron11 : List Nat → List Nat
+  | [] => []
+  | i :: is => i :: i :: kron11 is
+
+/-- `v.reshape(-1, 2)` of an index vector: consecutive entries paired (an odd length is a reshape error; the trailing entry is dropped here,
+    the index vectors this is used on have even length: `C20_src_pair_indexes_length`) -/
+def pairsOf : List Nat → List (Nat × Nat)
+  | a :: b :: rest => (a, b) :: pairsOf rest
+  | _ => []
+
 /-- `np.prod(M, axis=-1)` -/
 def prodRows (m : Mat) : List Rat := m.rows.map fun r => r.foldr (· * ·) 1
 
